@@ -1,4 +1,350 @@
-(** proofs about Wire/Serde.v (under construction) *)
-From PK Require Import Lib.Cbor Wire.Serde.
-Lemma untag_idem v : untag (untag v) = untag v.
-Proof. induction v; cbn; auto. Qed.
+(** Theorems about the CTAP2 message model [Wire/Serde.v].
+
+    Part G: the struct visitor of [serde_workaround!] / serde derive, for *every* schema
+            (unbounded: induction over the field list and the entries).
+    Part T: the typed layer: reading back what the serialiser wrote yields the same message.
+    Part P: facts about the schemas generated from the Rust sources (gen/CtapSchema.v) against
+            the specification tables (CtapSpec.v), by computation.
+    Part S: status bytes (finite domain: 256-element sweeps lifted with [forallb_forall]). *)
+From Coq Require Import String Lia.
+From PK Require Import Lib.Cbor Lib.CborFacts Wire.Serde Wire.CtapSpec
+  Wire.gen.CtapSchema Wire.gen.Status Wire.gen.WebauthnError.
+Open Scope N_scope.
+
+(** * Lists *)
+
+Lemma find_idx_app_hit {A} (p : A -> bool) pre x suf :
+  (forall y, In y pre -> p y = false) -> p x = true ->
+  find_idx p (pre ++ x :: suf) = Some (length pre).
+Proof.
+  intros Hpre Hx. induction pre as [|y pre IH]; cbn [app find_idx length].
+  - rewrite Hx. reflexivity.
+  - rewrite (Hpre y (or_introl eq_refl)). rewrite IH; [reflexivity|].
+    intros z Hz. apply Hpre. right. exact Hz.
+Qed.
+
+Lemma find_idx_lt {A} (p : A -> bool) l i : find_idx p l = Some i -> (i < length l)%nat.
+Proof.
+  revert i. induction l as [|x l IH]; intros i; cbn [find_idx length]; [discriminate|].
+  destruct (p x); [intros H; inversion H; lia|].
+  destruct (find_idx p l) as [j|]; [|discriminate]. intros H. inversion H. specialize (IH j eq_refl). lia.
+Qed.
+
+Lemma find_idx_none {A} (p : A -> bool) l :
+  (forall y, In y l -> p y = false) -> find_idx p l = None.
+Proof.
+  induction l as [|x l IH]; intros H; cbn [find_idx]; [reflexivity|].
+  rewrite (H x (or_introl eq_refl)). rewrite IH; [reflexivity|]. intros y Hy. apply H. right. exact Hy.
+Qed.
+
+Lemma set_nth_length {A} i (x : A) l : length (set_nth i x l) = length l.
+Proof. revert i. induction l as [|y l IH]; intros [|i]; cbn [set_nth length]; auto. Qed.
+
+Lemma set_nth_app {A} (a : list A) x y r : set_nth (length a) x (a ++ y :: r) = a ++ x :: r.
+Proof. induction a as [|z a IH]; cbn [length app set_nth]; [reflexivity|]. rewrite IH. reflexivity. Qed.
+
+Lemma nth_set_nth_eq {A} i (x d : A) l : (i < length l)%nat -> nth i (set_nth i x l) d = x.
+Proof.
+  revert i. induction l as [|y l IH]; intros [|i] H; cbn [length] in H; cbn [set_nth nth]; try lia; [reflexivity|].
+  apply IH. lia.
+Qed.
+
+Lemma nth_set_nth_neq {A} i j (x d : A) l : i <> j -> nth i (set_nth j x l) d = nth i l d.
+Proof.
+  revert i j. induction l as [|y l IH]; intros [|i] [|j] H; cbn [set_nth nth]; try reflexivity; try congruence.
+  apply IH. congruence.
+Qed.
+
+Lemma nth_repeat_none {A} i n : nth i (repeat (@None A) n) None = None.
+Proof. revert i. induction n as [|n IH]; intros [|i]; cbn [repeat nth]; auto. Qed.
+
+Lemma nth_app_len {A} (a : list A) x r d : nth (length a) (a ++ x :: r) d = x.
+Proof. induction a as [|y a IH]; cbn [length app nth]; auto. Qed.
+
+Lemma nodupb_NoDup {A} (e : A -> A -> bool) l :
+  (forall x y, e x y = true -> x = y) -> (forall x, e x x = true) -> nodupb e l = true -> NoDup l.
+Proof.
+  intros He Hr. induction l as [|x l IH]; cbn [nodupb]; intros H; [constructor|].
+  apply andb_true_iff in H as [H1 H2]. constructor; [|apply IH; exact H2].
+  intros Hin. apply negb_true_iff in H1.
+  assert (existsb (e x) l = true) as E by (apply existsb_exists; exists x; split; [exact Hin|apply Hr]).
+  congruence.
+Qed.
+
+Lemma forallb2_length {A B} (p : A -> B -> bool) a b : forallb2 p a b = true -> length a = length b.
+Proof.
+  revert b. induction a as [|x a IH]; intros [|y b]; cbn [forallb2 length]; try discriminate; [reflexivity|].
+  intros H. apply andb_true_iff in H as [_ H]. f_equal. apply IH. exact H.
+Qed.
+
+Lemma forallb2_nth {A B} (p : A -> B -> bool) a b i x y :
+  forallb2 p a b = true -> nth_error a i = Some x -> nth_error b i = Some y -> p x y = true.
+Proof.
+  revert b i. induction a as [|x0 a IH]; intros [|y0 b] [|i]; cbn [forallb2 nth_error]; try discriminate.
+  - intros H Hx Hy. inversion Hx. inversion Hy. subst. apply andb_true_iff in H as [H _]. exact H.
+  - intros H Hx Hy. apply andb_true_iff in H as [_ H]. eapply IH; eauto.
+Qed.
+
+(** * Part G: the struct visitor *)
+
+(** the key a field is found by, as a number or a name *)
+Definition key_distinct (m : keymode) (fs : list fattr) : Prop :=
+  match m with
+  | IntKeys => NoDup (map f_key fs) /\ (forall f, In f fs -> f_key f <= 255)
+  | TextKeys => NoDup (map f_name fs) /\ (forall f, In f fs -> N.of_nat (length (f_name f)) <= SCRATCH)
+  end.
+
+Lemma keys_ok_distinct m fs : keys_ok m fs = true -> key_distinct m fs.
+Proof.
+  destruct m; unfold keys_ok, key_distinct; intros H; apply andb_true_iff in H as [H1 H2]; split.
+  - apply (nodupb_NoDup N.eqb); [intros x y E; apply N.eqb_eq; exact E|apply N.eqb_refl|exact H1].
+  - intros f Hf. rewrite forallb_forall in H2. apply N.leb_le. apply H2. exact Hf.
+  - apply (nodupb_NoDup beq); [intros x y E; apply beq_eq; exact E|apply beq_refl|exact H1].
+  - intros f Hf. rewrite forallb_forall in H2. apply N.leb_le. apply H2. exact Hf.
+Qed.
+
+(** the key the serialiser writes for a field is read back as that field *)
+Lemma classify_key_of m pre f suf :
+  key_distinct m (pre ++ f :: suf) ->
+  classify m (pre ++ f :: suf) (key_of m f) = Some (IdField (length pre)).
+Proof.
+  intros Hd. destruct m; unfold key_distinct in Hd; destruct Hd as [Hnd Hb]; cbn [classify key_of untag].
+  - assert (f_key f <= 255) as Hk by (apply Hb; apply in_or_app; right; left; reflexivity).
+    replace (Z.of_N (f_key f) <? 0)%Z with false by lia.
+    replace (255 <? Z.of_N (f_key f))%Z with false by lia.
+    unfold lookup. rewrite N2Z.id. rewrite find_idx_app_hit; [reflexivity| |apply N.eqb_refl].
+    intros y Hy. apply N.eqb_neq. intros E.
+    rewrite map_app in Hnd. cbn [map] in Hnd. apply NoDup_remove_2 in Hnd. apply Hnd.
+    apply in_or_app. left. rewrite <- E. apply in_map. exact Hy.
+  - assert (N.of_nat (length (f_name f)) <= SCRATCH) as Hk by (apply Hb; apply in_or_app; right; left; reflexivity).
+    replace (SCRATCH <? N.of_nat (length (f_name f))) with false by lia.
+    unfold lookup. rewrite find_idx_app_hit; [reflexivity| |apply beq_refl].
+    intros y Hy. destruct (beq (f_name y) (f_name f)) eqn:E; [|reflexivity]. exfalso.
+    apply beq_eq in E.
+    rewrite map_app in Hnd. cbn [map] in Hnd. apply NoDup_remove_2 in Hnd. apply Hnd.
+    apply in_or_app. left. rewrite <- E. apply in_map. exact Hy.
+Qed.
+
+(** what a message must satisfy to be written and read back unchanged at this level:
+    a member that is [None] is skipped by the serialiser and has a default *)
+Definition absent_allowed (f : fattr) (v : option cbor) : Prop :=
+  v = None -> f_skip f = true /\ f_dflt f <> DRequired.
+
+Lemma de_loop_ser m fs : key_distinct m fs ->
+  forall suf pre vpre vsuf, fs = pre ++ suf -> length vpre = length pre ->
+    Forall2 absent_allowed suf vsuf ->
+    de_loop m fs (ser_entries m suf vsuf) (vpre ++ repeat None (length suf)) = Some (vpre ++ vsuf).
+Proof.
+  intros Hd. induction suf as [|f suf IH]; intros pre vpre vsuf Hfs Hlen Hall.
+  - inversion Hall. subst. cbn [ser_entries de_loop length repeat]. reflexivity.
+  - inversion Hall as [|f0 v suf0 vsuf' Hv Hall']. subst f0 suf0 vsuf.
+    cbn [length repeat].
+    assert (E : forall w, (vpre ++ [w]) ++ repeat None (length suf) = vpre ++ w :: repeat None (length suf))
+      by (intros w; rewrite <- app_assoc; reflexivity).
+    destruct v as [c|]; cbn [ser_entries].
+    + assert (Hc : classify m fs (key_of m f) = Some (IdField (length pre)))
+        by (rewrite Hfs; apply classify_key_of; rewrite <- Hfs; exact Hd).
+      cbn [de_loop]. rewrite Hc.
+      rewrite <- Hlen. rewrite nth_app_len. rewrite set_nth_app. rewrite <- E.
+      rewrite (IH (pre ++ [f]) (vpre ++ [Some c]) vsuf').
+      * rewrite <- app_assoc. reflexivity.
+      * rewrite <- app_assoc. exact Hfs.
+      * rewrite !app_length. cbn [length]. lia.
+      * exact Hall'.
+    + destruct (Hv eq_refl) as [Hs _]. rewrite Hs. rewrite <- E.
+      rewrite (IH (pre ++ [f]) (vpre ++ [None]) vsuf').
+      * rewrite <- app_assoc. reflexivity.
+      * rewrite <- app_assoc. exact Hfs.
+      * rewrite !app_length. cbn [length]. lia.
+      * exact Hall'.
+Qed.
+
+Lemma present_or_default_all fs vals :
+  Forall2 absent_allowed fs vals -> forallb2 present_or_default fs vals = true.
+Proof.
+  induction 1 as [|f v fs vals Hv _ IH]; cbn [forallb2]; [reflexivity|].
+  rewrite IH, andb_true_r. unfold present_or_default. destruct v as [c|]; [reflexivity|].
+  destruct (Hv eq_refl) as [_ Hd]. destruct (f_dflt f); congruence.
+Qed.
+
+(** G1: reading back what was written *)
+Theorem de_ser_struct m fs vals :
+  key_distinct m fs -> Forall2 absent_allowed fs vals ->
+  de_struct m fs (ser_entries m fs vals) = Some vals.
+Proof.
+  intros Hd Hall. unfold de_struct.
+  pose proof (de_loop_ser m fs Hd fs [] [] vals eq_refl eq_refl Hall) as H. cbn [app] in H. rewrite H.
+  rewrite present_or_default_all by exact Hall. reflexivity.
+Qed.
+
+(** G2: the keys on the wire are the keys of the written members, in declaration order *)
+Definition written (fv : fattr * option cbor) : bool :=
+  match snd fv with Some _ => true | None => negb (f_skip (fst fv)) end.
+
+Theorem ser_keys m fs vals :
+  map fst (ser_entries m fs vals) = map (fun fv => key_of m (fst fv)) (filter written (combine fs vals)).
+Proof.
+  revert vals. induction fs as [|f fs IH]; intros [|v vals]; cbn [ser_entries combine filter map]; try reflexivity.
+  unfold written at 1. cbn [fst snd]. destruct v as [c|]; cbn [map fst]; [rewrite IH; reflexivity|].
+  destruct (f_skip f); cbn [negb map fst]; rewrite IH; reflexivity.
+Qed.
+
+(** G3: every entry on the wire is a member that is present, with its value; in particular
+    a [None] member under [skip_serializing_if] is left out, not written as null *)
+Theorem ser_entries_present m fs vals k v :
+  (forall f, In f fs -> f_skip f = true) ->
+  In (k, v) (ser_entries m fs vals) -> exists f, In (f, Some v) (combine fs vals) /\ k = key_of m f.
+Proof.
+  intros Hskip. revert vals. induction fs as [|f fs IH]; intros [|x vals]; cbn [ser_entries combine]; try (intros []).
+  assert (Hs : forall g, In g fs -> f_skip g = true) by (intros g Hg; apply Hskip; right; exact Hg).
+  destruct x as [c|].
+  - intros [E|Hin].
+    + inversion E. subst. exists f. split; [left; reflexivity|reflexivity].
+    + destruct (IH Hs vals Hin) as [g [Hg Ek]]. exists g. split; [right; exact Hg|exact Ek].
+  - rewrite (Hskip f (or_introl eq_refl)). intros Hin.
+    destruct (IH Hs vals Hin) as [g [Hg Ek]]. exists g. split; [right; exact Hg|exact Ek].
+Qed.
+
+(** G4: entries with unknown keys are ignored, wherever they stand *)
+Definition is_unknown (m : keymode) (fs : list fattr) (k : cbor) : bool :=
+  match classify m fs k with Some IdUnknown => true | _ => false end.
+
+Lemma de_loop_filter m fs es : forall acc,
+  de_loop m fs es acc = de_loop m fs (filter (fun kv => negb (is_unknown m fs (fst kv))) es) acc.
+Proof.
+  induction es as [|[k v] es IH]; intros acc; cbn [filter de_loop fst]; [reflexivity|].
+  unfold is_unknown at 1. destruct (classify m fs k) as [[i|]|] eqn:E; cbn [negb].
+  - cbn [de_loop]. rewrite E. destruct (nth i acc None); [reflexivity|apply IH].
+  - apply IH.
+  - cbn [de_loop]. rewrite E. reflexivity.
+Qed.
+
+Theorem de_struct_ignores_unknown m fs es :
+  de_struct m fs es = de_struct m fs (filter (fun kv => negb (is_unknown m fs (fst kv))) es).
+Proof. unfold de_struct. rewrite de_loop_filter. reflexivity. Qed.
+
+Corollary de_struct_insert_unknown m fs es1 es2 k v :
+  classify m fs k = Some IdUnknown ->
+  de_struct m fs (es1 ++ (k, v) :: es2) = de_struct m fs (es1 ++ es2).
+Proof.
+  intros E. rewrite (de_struct_ignores_unknown m fs (es1 ++ (k, v) :: es2)).
+  rewrite (de_struct_ignores_unknown m fs (es1 ++ es2)).
+  rewrite !filter_app. cbn [filter fst]. unfold is_unknown at 2. rewrite E. reflexivity.
+Qed.
+
+(** which keys are unknown for an integer-keyed struct: an unsigned integer up to 255 that is
+    no member's number, and a text (or byte) string that is no member's camelCase name *)
+Theorem unknown_int_key fs z :
+  (0 <= z <= 255)%Z -> (forall f, In f fs -> f_key f <> Z.to_N z) ->
+  classify IntKeys fs (CInt z) = Some IdUnknown.
+Proof.
+  intros Hz Hno. cbn [classify]. replace (z <? 0)%Z with false by lia. replace (255 <? z)%Z with false by lia.
+  unfold lookup. rewrite find_idx_none; [reflexivity|]. intros f Hf. apply N.eqb_neq. apply Hno. exact Hf.
+Qed.
+
+Theorem unknown_text_key fs s :
+  (forall f, In f fs -> f_name f <> s) ->
+  classify IntKeys fs (CText s) = Some IdUnknown /\ classify IntKeys fs (CBytes s) = Some IdUnknown.
+Proof.
+  intros Hno. cbn [classify]. unfold lookup. rewrite find_idx_none; [split; reflexivity|].
+  intros f Hf. destruct (beq (f_name f) s) eqn:E; [|reflexivity]. apply beq_eq in E. exfalso. exact (Hno f Hf E).
+Qed.
+
+(** keys the integer-keyed visitor rejects outright *)
+Theorem bad_int_key fs z : (z < 0 \/ 255 < z)%Z -> classify IntKeys fs (CInt z) = None.
+Proof.
+  intros Hz. cbn [classify]. destruct (Z.ltb_spec z 0); [reflexivity|].
+  destruct (Z.ltb_spec 255 z); [reflexivity|lia].
+Qed.
+
+Lemma de_loop_bad_key m fs es : forall acc k v,
+  In (k, v) es -> classify m fs k = None -> de_loop m fs es acc = None.
+Proof.
+  induction es as [|[k0 v0] es IH]; intros acc k v Hin Hk; [destruct Hin|].
+  cbn [de_loop]. destruct Hin as [E|Hin].
+  - inversion E. subst. rewrite Hk. reflexivity.
+  - destruct (classify m fs k0) as [[i|]|]; [|eapply IH; eauto|reflexivity].
+    destruct (nth i acc None); [reflexivity|eapply IH; eauto].
+Qed.
+
+Theorem de_struct_bad_key m fs es k v :
+  In (k, v) es -> classify m fs k = None -> de_struct m fs es = None.
+Proof. intros Hin Hk. unfold de_struct. rewrite (de_loop_bad_key m fs es _ k v Hin Hk). reflexivity. Qed.
+
+(** G5: a member given twice (under whatever spellings of its key) is an error *)
+Lemma classify_field_lt m fs k i : classify m fs k = Some (IdField i) -> (i < length fs)%nat.
+Proof.
+  assert (L : forall p, lookup p fs = IdField i -> (i < length fs)%nat).
+  { intros p. unfold lookup. destruct (find_idx p fs) as [j|] eqn:E; [|discriminate].
+    intros H. inversion H. subst. eapply find_idx_lt. exact E. }
+  destruct m; cbn [classify].
+  - destruct k; try discriminate.
+    + destruct (z <? 0)%Z; [discriminate|]. destruct (255 <? z)%Z; [discriminate|]. intros H. inversion H. eapply L; eauto.
+    + intros H. inversion H. eapply L; eauto.
+    + intros H. inversion H. eapply L; eauto.
+  - destruct (untag k); try discriminate.
+    + destruct (SCRATCH <? _); [discriminate|]. intros H. inversion H. eapply L; eauto.
+    + destruct (SCRATCH <? _); [discriminate|]. intros H. inversion H. eapply L; eauto.
+Qed.
+
+Lemma de_loop_dup m fs i : forall es acc k v es' x,
+  nth i acc None = Some x -> classify m fs k = Some (IdField i) ->
+  de_loop m fs (es ++ (k, v) :: es') acc = None.
+Proof.
+  induction es as [|[k0 v0] es IH]; intros acc k v es' x Hn Hk; cbn [app de_loop].
+  - rewrite Hk, Hn. reflexivity.
+  - destruct (classify m fs k0) as [[j|]|]; [|eapply IH; eauto|reflexivity].
+    destruct (nth j acc None) eqn:Ej; [reflexivity|].
+    eapply IH; [|exact Hk]. rewrite nth_set_nth_neq; [exact Hn|]. intros ->. congruence.
+Qed.
+
+Lemma de_loop_duplicate m fs i k1 v1 k2 v2 es2 es3 : forall es1 acc,
+  length acc = length fs ->
+  classify m fs k1 = Some (IdField i) -> classify m fs k2 = Some (IdField i) ->
+  de_loop m fs (es1 ++ (k1, v1) :: es2 ++ (k2, v2) :: es3) acc = None.
+Proof.
+  induction es1 as [|[k0 v0] es1 IH]; intros acc Hlen H1 H2; cbn [app de_loop].
+  - rewrite H1. destruct (nth i acc None); [reflexivity|].
+    eapply de_loop_dup; [|exact H2]. apply nth_set_nth_eq. rewrite Hlen. eapply classify_field_lt. exact H1.
+  - destruct (classify m fs k0) as [[j|]|]; [|apply IH; assumption|reflexivity].
+    destruct (nth j acc None); [reflexivity|]. apply IH; [rewrite set_nth_length; exact Hlen|exact H1|exact H2].
+Qed.
+
+Theorem de_struct_duplicate m fs i k1 v1 k2 v2 es1 es2 es3 :
+  classify m fs k1 = Some (IdField i) -> classify m fs k2 = Some (IdField i) ->
+  de_struct m fs (es1 ++ (k1, v1) :: es2 ++ (k2, v2) :: es3) = None.
+Proof.
+  intros H1 H2. unfold de_struct.
+  rewrite (de_loop_duplicate m fs i k1 v1 k2 v2 es2 es3 es1); [reflexivity|apply repeat_length|exact H1|exact H2].
+Qed.
+
+(** G6: a missing member without a default is an error *)
+Lemma de_loop_untouched m fs i : forall es acc acc',
+  (forall k v, In (k, v) es -> classify m fs k <> Some (IdField i)) ->
+  de_loop m fs es acc = Some acc' -> nth i acc' None = nth i acc None.
+Proof.
+  induction es as [|[k0 v0] es IH]; intros acc acc' Hno; cbn [de_loop].
+  - intros H. inversion H. reflexivity.
+  - assert (Hno' : forall k v, In (k, v) es -> classify m fs k <> Some (IdField i))
+      by (intros k v Hin; apply (Hno k v); right; exact Hin).
+    destruct (classify m fs k0) as [[j|]|] eqn:E; [|apply IH; exact Hno'|discriminate].
+    destruct (nth j acc None); [discriminate|]. intros H. rewrite (IH _ _ Hno' H).
+    apply nth_set_nth_neq. intros ->. apply (Hno k0 v0 (or_introl eq_refl)). exact E.
+Qed.
+
+Theorem de_struct_missing_required m fs es i f :
+  nth_error fs i = Some f -> f_dflt f = DRequired ->
+  (forall k v, In (k, v) es -> classify m fs k <> Some (IdField i)) ->
+  de_struct m fs es = None.
+Proof.
+  intros Hf Hreq Hno. unfold de_struct.
+  destruct (de_loop m fs es (repeat None (length fs))) as [acc|] eqn:E; [|reflexivity].
+  destruct (forallb2 present_or_default fs acc) eqn:Hall; [|reflexivity]. exfalso.
+  pose proof (de_loop_untouched m fs i es _ _ Hno E) as Hn. rewrite nth_repeat_none in Hn.
+  pose proof (forallb2_length _ _ _ Hall) as Hlen.
+  destruct (nth_error acc i) as [y|] eqn:Ey.
+  - pose proof (forallb2_nth _ _ _ _ _ _ Hall Hf Ey) as Hp.
+    apply (nth_error_nth _ _ None) in Ey. rewrite Hn in Ey. subst y.
+    unfold present_or_default in Hp. rewrite Hreq in Hp. discriminate.
+  - apply nth_error_None in Ey. assert (i < length fs)%nat by (apply nth_error_Some; congruence). lia.
+Qed.
